@@ -664,7 +664,7 @@ func c20GenCfg(r *Rng) c20Cfg {
 // c20SlowCfg: the slow-backlog family. Few requests with long handlers, a queue that holds the
 // whole burst, Stop right after the burst was accepted: Stop returns quickly, and Serve has to
 // wait for seconds of worker time AFTER it closed the queue. Shape 0 (the one a quick run
-// executes) drains for 6–7 s; the others 2–3 s, ~10 s, and a queue shorter than the backlog
+// executes) drains for a good 6 s; the others 2–3 s, ~10 s, and a queue shorter than the backlog
 // (then it is Stop that waits). Returns the configuration and the nominal drain time in seconds.
 func c20SlowCfg(r *Rng, k int) (c20Cfg, int) {
 	mk := func(w, q, n, durMs int) c20Cfg {
@@ -678,11 +678,11 @@ func c20SlowCfg(r *Rng, k int) (c20Cfg, int) {
 	case 0:
 		switch r.Intn(3) {
 		case 0:
-			return mk(1, 8+r.Intn(8), 8, 800), 6 // 1 worker, 8 x 0.8 s
+			return mk(1, 8+r.Intn(8), 8, 760), 6 // 1 worker, 8 x 0.76 s
 		case 1:
-			return mk(2, 16+r.Intn(8), 16, 800), 6 // 2 workers, 16 x 0.8 s
+			return mk(2, 16+r.Intn(8), 16, 760), 6 // 2 workers, 16 x 0.76 s
 		}
-		return mk(1, 4+r.Intn(4), 4, 1650), 7 // 1 worker, 4 x 1.65 s
+		return mk(1, 4+r.Intn(4), 4, 1520), 6 // 1 worker, 4 x 1.52 s
 	case 1:
 		return mk(1, 6, 5, 500), 2 // below any multi-second bound
 	case 2:
@@ -989,7 +989,7 @@ func init() {
 		for _, d := range cfg.durs {
 			work += d
 		}
-		if work > 10000 { // more than 1 s of handler time: once
+		if work > 2000 { // more than 0.2 s of handler time: once
 			tries = 1
 		}
 		for try := 0; try < tries; try++ {
